@@ -255,23 +255,37 @@ def frontends(run, rng, n):
         cfg = {"storage": rng.choice(["file", "ram"]), "compound": True}
         w = ixdriver.IxWorld(**cfg)
         try:
-            # a plain writer holds the lock while an AsyncWriter is used
+            # committed documents that both writers below will delete from
+            bname0, base = w.writer()
+            for k in (u"b0", u"b1", u"b2", u"b3"):
+                w.api(bname0, "delete", k)
+                w.api(bname0, "add", k)
+                w.guarded(bname0, "update_document", lambda k=k: base.update_document(key=k, body=u"x"))
+            w.guarded(bname0, "commit", lambda: base.commit(merge=False))
+            # a plain writer holds the lock while an AsyncWriter is used; its commit renumbers the documents
             hname, holder = w.writer()
             w.api(hname, "delete", "h")
             w.api(hname, "add", "h")
             w.guarded(hname, "update_document", lambda: holder.update_document(key=u"h", body=u"x"))
+            w.api(hname, "delete", "b0")
+            w.guarded(hname, "delete_by_term", lambda: holder.delete_by_term("key", u"b0"))
+            # ... and replaces b2, which the AsyncWriter (committing after it) deletes
+            w.api(hname, "delete", "b2")
+            w.api(hname, "add", "b2")
+            w.guarded(hname, "update_document", lambda: holder.update_document(key=u"b2", body=u"x new"))
             w.nw += 1
             aname = "w%d" % w.nw
             w.writers.append(aname)
-            pending = [("delete", "a1"), ("add", "a1"), ("delete", "a2"), ("add", "a2")]
+            pending = [("delete", "b2"), ("delete", "a1"), ("add", "a1"), ("delete", "a2"), ("add", "a2")]
             # (a call that raises becomes an 'apierror' event, which no action of the specification allows)
             ok, aw = w.guarded(aname, "AsyncWriter", lambda: writing.AsyncWriter(_IndexProxy(w, aname, pending), delay=0.01))
             if ok:
+                w.guarded(aname, "AsyncWriter.delete_by_term", lambda: aw.delete_by_term("key", u"b2"))
                 w.guarded(aname, "AsyncWriter.update_document", lambda: aw.update_document(key=u"a1", body=u"x"))
                 w.guarded(aname, "AsyncWriter.update_document", lambda: aw.update_document(key=u"a2", body=u"x"))
                 w.guarded(aname, "AsyncWriter.commit", aw.commit)      # lock is held: retries in its own thread
             time.sleep(rng.choice([0.0, 0.03]))
-            w.guarded(hname, "commit", lambda: holder.commit(merge=False))
+            w.guarded(hname, "commit", lambda: holder.commit(optimize=True))
             if ok and aw.is_alive():
                 aw.join(60)
             # BufferedWriter holds the lock for its life time
